@@ -1102,6 +1102,21 @@ def slice_with_bool_dask_array(x, index):
         for ind in index
     ]
 
+    # A boolean index must have the length of the axis it indexes (as in
+    # NumPy); blockwise below would silently broadcast a length-one axis or
+    # a length-one mask.
+    full = len(index) == 1 and index[0].ndim == x.ndim
+    for axis, ind in enumerate(index):
+        if isinstance(ind, Array) and ind.dtype == bool and (full or ind.ndim == 1):
+            for offset, size in enumerate(ind.shape):
+                dim = x.shape[axis + offset]
+                if not math.isnan(size) and not math.isnan(dim) and size != dim:
+                    raise IndexError(
+                        "boolean index did not match indexed array along axis "
+                        f"{axis + offset}; size of axis is {dim} but size of "
+                        f"corresponding boolean axis is {size}"
+                    )
+
     if len(index) == 1 and index[0].ndim == x.ndim:
         if not np.isnan(x.shape).any() and not np.isnan(index[0].shape).any():
             x = x.ravel()
